@@ -138,7 +138,7 @@ def gen_dop(sx, d, path, shape, prop):
             bl = d["bl"]
         lim = 1 << (bl + 1)
         v = sx.int(nm, -lim, lim)
-        if prop in ("C01", "C02", "C08"):
+        if prop in ("C01", "C02", "C03", "C08"):
             sx.assume(odxref.int_domain(d["dt"], d.get("enc"), bl, v))
         return v
     if k == "structure":
@@ -381,6 +381,32 @@ def run_composite(sx, cfg, env):
         ref_ok = True
     except odxref.Reject:
         rp, ref_ok = None, False
+
+    if prop == "C03":
+        if not ref_ok or rp.overlap:
+            sx.cover("no-reference")
+            return
+        msg = rp.result()
+        sx.observe("msg", msg)
+        try:
+            dec = obj.decode(msg)
+        except Exception as e:  # noqa: BLE001
+            sx.observe("decode-exception", type(e).__name__)
+            sx.fail("canonical-pdu-decodes")
+            return
+        try:
+            if cfg["what"] == "request":
+                pdu2 = obj.encode(**dec)
+            else:
+                pdu2 = obj.encode(coded_request=kwargs["coded_request"], **dec)
+        except Exception as e:  # noqa: BLE001
+            sx.observe("encode-exception", type(e).__name__)
+            sx.fail("decoded-values-encode")
+            return
+        sx.cover("accepted")
+        sx.require(len(pdu2) == len(msg), "decode-then-encode-reproduces-the-pdu")
+        sx.require(core.frozen(pdu2) == msg, "decode-then-encode-reproduces-the-pdu")
+        return
 
     with warnings.catch_warnings(record=True) as wlist:
         warnings.simplefilter("always")
